@@ -2,7 +2,7 @@
     Extract Constant; N, Z, positive and nat stay the extracted datatypes. *)
 From Coq Require Import Extraction ExtrOcamlBasic.
 From PM Require Import Model.Prelude Model.Domain Model.Constraint Model.BindAll Model.Scheme
-  Model.BindMaps Model.DomTable Model.DomString Model.DomMatrix.
+  Model.BindMaps Model.DomTable Model.DomString Model.DomMatrix Model.Toposort.
 
 Extraction Language OCaml.
 Set Extraction KeepSingleton.
@@ -14,4 +14,5 @@ Extraction "model.ml"
   (* C16 *) try_new is_satisfied_calls
   (* maps *) aget abind aretain retain_default
   (* maps *) mrun retain_rounds_default mmget_panics
+  (* C15 *) ts_init ts_next ts_run
   (* domains *) table_dom t_reqf string_dom matrix_dom s_cvec m_cvec.
